@@ -57,6 +57,7 @@ var (
 	ErrEmptyMetaLine  = Error{"gff: empty comment metaline"}
 	ErrBadMetaLine    = Error{"gff: incomplete metaline"}
 	ErrBadSequence    = Error{"gff: corrupt metasequence"}
+	ErrZeroStart      = Error{"gff: one-based start position is zero"}
 )
 
 const (
@@ -243,6 +244,15 @@ func mustAtoi(f [][]byte, index, line int) int {
 	return int(i)
 }
 
+// mustAtoStart parses a one-based start position, which cannot be zero.
+func mustAtoStart(f [][]byte, index, line int) int {
+	i := mustAtoi(f, index, line)
+	if i == 0 {
+		panic(&csv.ParseError{Line: line, Column: index, Err: ErrZeroStart})
+	}
+	return i
+}
+
 func mustAtofPtr(f [][]byte, index, line int) *float64 {
 	if len(f[index]) == 1 && f[index][0] == '.' {
 		return nil
@@ -377,6 +387,9 @@ func (r *Reader) commentMetaline(line []byte) (f feat.Feature, err error) {
 	}
 	switch unsafeString(fields[0]) {
 	case "gff-version":
+		if len(fields) <= 1 {
+			return nil, &csv.ParseError{Line: r.line, Err: ErrBadMetaLine}
+		}
 		v := mustAtoi(fields, 1, r.line)
 		if v > Version {
 			return nil, &csv.ParseError{Line: r.line, Err: ErrNotHandled}
@@ -415,7 +428,7 @@ func (r *Reader) commentMetaline(line []byte) (f feat.Feature, err error) {
 		}
 		return &Region{
 			Sequence:    Sequence{SeqName: string(fields[1]), Type: r.Type},
-			RegionStart: feat.OneToZero(mustAtoi(fields, 2, r.line)),
+			RegionStart: feat.OneToZero(mustAtoStart(fields, 2, r.line)),
 			RegionEnd:   mustAtoi(fields, 3, r.line),
 		}, nil
 	case "DNA", "RNA", "Protein", "dna", "rna", "protein":
@@ -500,7 +513,7 @@ func (r *Reader) Read() (f feat.Feature, err error) {
 	}
 
 	fields := bytes.SplitN(line, []byte{'\t'}, lastField)
-	if len(fields) < frameField {
+	if len(fields) <= frameField {
 		return nil, &csv.ParseError{Line: r.line, Column: len(fields), Err: ErrFieldMissing}
 	}
 
@@ -508,7 +521,7 @@ func (r *Reader) Read() (f feat.Feature, err error) {
 		SeqName:    string(fields[nameField]),
 		Source:     string(fields[sourceField]),
 		Feature:    string(fields[featureField]),
-		FeatStart:  feat.OneToZero(mustAtoi(fields, startField, r.line)),
+		FeatStart:  feat.OneToZero(mustAtoStart(fields, startField, r.line)),
 		FeatEnd:    mustAtoi(fields, endField, r.line),
 		FeatScore:  mustAtofPtr(fields, scoreField, r.line),
 		FeatStrand: mustAtos(fields, strandField, r.line),
